@@ -26,6 +26,7 @@ import (
 	"google.golang.org/protobuf/proto"
 
 	"verifharness/mc"
+	"verifharness/ref"
 	"verifharness/world"
 )
 
@@ -208,6 +209,40 @@ func runC10(r *mc.Run) {
 		})
 		r.SectionDone(mc.Section{Name: "message-mutations/triples", Evaluations: triples * 8, Exhaustive: doneT == nm*nm,
 			Note: fmt.Sprintf("all %d triples of the %d single mutations", triples, nm)})
+	}
+	// well-formed messages whose variable-length parts have other (consistent) sizes, up to the limits of their
+	// size fields and across the 16-bit boundaries of the lengths nested around them
+	{
+		type sz struct{ a, c int }
+		var szs []sz
+		for _, a := range []int{0, 1, 2, 31, 33, 253, 254, 255, 256, 257, 258, 32766, 32767, 32768, 32769, 65529, 65530, 65531, 65532, 65533, 65534, 65535} {
+			szs = append(szs, sz{a, -1}, sz{a, 0})
+		}
+		for _, c := range []int{1, 65079, 65080, 65081, 65527, 65528, 65529, 65533, 65534, 65535, 65536, 65537, 131070, 131071, 131072, 131073} {
+			szs = append(szs, sz{32, c}, sz{0, c})
+		}
+		doneS := r.Parallel(len(szs), func(i int) {
+			id := fmt.Sprintf("msg/consistent-sizes/auth=%d,chain=%d", szs[i].a, szs[i].c)
+			if !r.Want(id) {
+				return
+			}
+			p := bases[0].w.Parts.Clone()
+			p.Auth = world.Fill("c10auth", szs[i].a)
+			if szs[i].c >= 0 {
+				p.Chain = world.Fill("c10chain", szs[i].c)
+			}
+			raw, _ := p.Bytes()
+			rp, perr := ref.ParseQuote(raw)
+			if perr != nil {
+				r.HarnessError("C10: reference parser rejects a generated well-formed quote %s: %v", id, perr)
+				return
+			}
+			entries(id, expectedMessage(rp), true)
+			c10Call(r, id, "abi.QuoteToProto", nil, func() error { _, e := abi.QuoteToProto(raw); return e })
+			c10Call(r, id, "verify.RawTdxQuote", nil, func() error { return verify.RawTdxQuote(raw, w.Options(world.L0)) })
+			c10Call(r, id, "validate.RawTdxQuote", nil, func() error { return validate.RawTdxQuote(raw, vopts) })
+		})
+		r.SectionDone(mc.Section{Name: "message-consistent-sizes", Evaluations: int64(doneS) * 12, Exhaustive: doneS == len(szs)})
 	}
 	// nil-ish messages
 	for name, q := range map[string]any{"typed-nil": (*pb.QuoteV4)(nil), "empty": &pb.QuoteV4{}, "untyped-nil": nil, "other-type": &pb.Header{}, "string": "quote"} {
